@@ -295,8 +295,56 @@ def run(ctx):
                 check(ctx, mod, fn, rule, name + tag, spec, real)
     k = len(configs)
     rep.floor('F', 3 * k)
+    rep.floor('P1', 3 * k)
     rep.floor('S', 12 * k)
     rep.floor('D', 25 * k)
+
+
+def guard_order(tree):
+    """P1: a pivot cell that a failure guard tests must not be square-rooted or divided by in an item that precedes the guard in
+    the same body; -> list of messages"""
+    out = []
+
+    def cells(e):
+        return set((str(t.args[0]), sp.expand(t.args[1])) for t in e.atoms(sp.Function) if t.func == scev.ld) if isinstance(e, sp.Basic) else set()
+
+    def uses(e, cell):
+        if not isinstance(e, sp.Basic):
+            return False
+        for p_ in e.atoms(sp.Pow):
+            b_, ex = p_.args
+            if (ex.is_negative or ex == sp.Rational(1, 2)) and cell in cells(b_):
+                return True
+        return False
+
+    def stores_of(items):
+        for t in items:
+            if t[0] == 'store':
+                yield t
+            elif t[0] == 'loop':
+                for x in stores_of(t[3]):
+                    yield x
+            elif t[0] == 'if':
+                for x in stores_of(t[2]):
+                    yield x
+                for x in stores_of(t[3]):
+                    yield x
+
+    def walk(items):
+        for k, t in enumerate(items):
+            if t[0] == 'exitif' and not t[1].fp is None:
+                meas = cells(sp.sympify(t[1].a)) | cells(sp.sympify(t[1].b))
+                for cell in meas:
+                    for st_ in stores_of(items[:k]):
+                        if uses(st_[3], cell):
+                            out.append('%s[%s] is square-rooted / divided by at %s before the failure test on it at %s' % (cell[0], cell[1], st_[4], t[3]))
+            if t[0] == 'loop':
+                walk(t[3])
+            elif t[0] == 'if':
+                walk(t[2])
+                walk(t[3])
+    walk(tree)
+    return out
 
 
 def check(ctx, mod, fn, rule, sym, spec, real):
@@ -305,6 +353,12 @@ def check(ctx, mod, fn, rule, sym, spec, real):
     try:
         a = scev.Aff(fn, lookup=lambda x: mod.functions.get(x))
         impl = a.emit()
+        if rule == 'F':
+            bad = guard_order(impl)
+            if bad:
+                rep.bad('P1', sym, bad[0] + ': a negative pivot becomes NaN, which the test lets through', loc=fn.loc(None), key='%s: pivot used before the failure test' % name)
+            else:
+                rep.ok('P1', sym, 'no pivot cell is square-rooted or divided by ahead of its failure test')
         S = Spec(elem=real)
         spec(S, rmin(real))
         cnt = afftree.compare(a, impl, S.tree())
